@@ -338,7 +338,13 @@ func GenRecSystem(t *rapid.T) (*Grammar, map[string]bool) {
 			for i := 0; i < n; i++ {
 				switch {
 				case i == consumeAt:
-					kids = append(kids, leaf())
+					if rapid.IntRange(0, 5).Draw(t, "nonemptyprefix") == 0 {
+						// ( x* y? )! has a body that can match nothing, but the group itself cannot
+						used["after_nonempty_group_of_optionals(look-alike)"] = true
+						kids = append(kids, Group("!", Seq(Group("*", c.leaf()), Group("?", leaf()))))
+					} else {
+						kids = append(kids, leaf())
+					}
 				default:
 					switch rapid.IntRange(0, 3).Draw(t, "ek") {
 					case 0:
